@@ -46,6 +46,8 @@ QUERIES = [
     ["q", "argsro", ["1", "2"], "2"],
     ["q", "call", "1/2", ["3", "1"]],
     ["q", "fluxes", ["1", "1", "2"], "0"],
+    ["q", "stoich", ["1", "2", "3"], "1"],
+    ["q", "stoichvar", "y", ["2", "1"], "0"],
 ]
 BATTERY = [["q", "init"], ["q", "classes"], ["q", "pvals"], ["q", "argsro", ["2", "3", "1"], "1"],
            ["q", "rhs", ["2", "3", "1"], "1"]]
@@ -185,9 +187,11 @@ class Sim:
         from .c03ops import PLURAL, singular_ops
 
         if op[0] in PLURAL:
-            for el in singular_ops(op):
-                if not self._apply1(el):
-                    break
+            # the plural forms validate every element before applying the first
+            if c03spec.expected_outcome(self.c, op) in ("ok", None):
+                for el in singular_ops(op):
+                    if not self._apply1(el):
+                        break
             return
         self._apply1(op)
 
@@ -294,6 +298,7 @@ def random_history(rng, length):
     def st():
         vs = sim.names("vars")
         cands = vs if vs and rng.random() < 0.95 else vs + ["nope"]
+        cands = list(dict.fromkeys(cands))  # a dict has each key once
         if not cands:
             return []
         k = rng.randint(1, min(2, len(cands)))
